@@ -130,3 +130,118 @@ Theorem c07_filter_orderings :
 Proof. exact order_edges_tree. Qed.
 Print Assumptions c07_filter_orderings.
 
+(* with a target: every edge of a returned breadth-/priority-first path is an accepted stored edge (IsPath = chain of good_edge) *)
+Theorem c07_filter_path_bfs_pfs :
+  forall (K V E : Type) (keqb : K -> K -> bool),
+       KeqbSpec keqb ->
+       forall (CB : Type) (cb : CB -> heap K V E -> edge E -> CB * heap K V E * bool)
+         (accept : edge E -> bool) (vleb : V -> V -> bool) (h : heap K V E),
+       Wf h ->
+       KeysInj h ->
+       PureCb h cb accept ->
+       forall (d : dir) (root : nat),
+       root < size h ->
+       forall (c0 : CB) (k : kind) (fuel : nat) (t : K) (st : sst K V E CB) (p : list (edge E)),
+       k <> KDfs ->
+       keyof h root <> Some t ->
+       search_path keqb cb vleb k d fuel h c0 root (Some t) false = (st, RPath p) ->
+       exists v : nat,
+         keyof h v = Some t /\
+         IsPath h d accept root p v /\
+         p <> [] /\ NoDup (map (edst (E:=E)) p) /\ ~ In root (map (edst (E:=E)) p).
+Proof. exact wlq_path_sound. Qed.
+Print Assumptions c07_filter_path_bfs_pfs.
+
+(* depth-first path: same *)
+Theorem c07_filter_path_dfs :
+  forall (K V E : Type) (keqb : K -> K -> bool),
+       KeqbSpec keqb ->
+       forall (CB : Type) (cb : CB -> heap K V E -> edge E -> CB * heap K V E * bool)
+         (accept : edge E -> bool) (vleb : V -> V -> bool) (h : heap K V E),
+       Wf h ->
+       KeysInj h ->
+       PureCb h cb accept ->
+       forall (d : dir) (root : nat),
+       root < size h ->
+       forall (c0 : CB) (fuel : nat) (t : K) (st : sst K V E CB) (p : list (edge E)),
+       keyof h root <> Some t ->
+       search_path keqb cb vleb KDfs d fuel h c0 root (Some t) false = (st, RPath p) ->
+       exists v : nat,
+         keyof h v = Some t /\
+         IsPath h d accept root p v /\
+         p <> [] /\ NoDup (map (edst (E:=E)) p) /\ ~ In root (map (edst (E:=E)) p).
+Proof. exact dfs_path_sound. Qed.
+Print Assumptions c07_filter_path_dfs.
+
+(* None only if the target is unreachable in the graph of ACCEPTED edges (reachability is decided there only) *)
+Theorem c07_filter_unreachable_bfs_pfs :
+  forall (K V E : Type) (keqb : K -> K -> bool),
+       KeqbSpec keqb ->
+       forall (CB : Type) (cb : CB -> heap K V E -> edge E -> CB * heap K V E * bool)
+         (accept : edge E -> bool) (vleb : V -> V -> bool) (h : heap K V E),
+       Wf h ->
+       KeysInj h ->
+       PureCb h cb accept ->
+       forall (d : dir) (root : nat),
+       root < size h ->
+       forall (c0 : CB) (k : kind) (fuel : nat) (t : K) (st : sst K V E CB),
+       k <> KDfs ->
+       keyof h root <> Some t ->
+       search_path keqb cb vleb k d fuel h c0 root (Some t) false = (st, RNone E) ->
+       forall v : nat, keyof h v = Some t -> ~ Reach h d accept root v.
+Proof. exact wlq_path_complete. Qed.
+Print Assumptions c07_filter_unreachable_bfs_pfs.
+
+(* depth-first: same *)
+Theorem c07_filter_unreachable_dfs :
+  forall (K V E : Type) (keqb : K -> K -> bool),
+       KeqbSpec keqb ->
+       forall (CB : Type) (cb : CB -> heap K V E -> edge E -> CB * heap K V E * bool)
+         (accept : edge E -> bool) (vleb : V -> V -> bool) (h : heap K V E),
+       Wf h ->
+       KeysInj h ->
+       PureCb h cb accept ->
+       forall (d : dir) (root : nat),
+       root < size h ->
+       forall (c0 : CB) (fuel : nat) (t : K) (st : sst K V E CB),
+       keyof h root <> Some t ->
+       search_path keqb cb vleb KDfs d fuel h c0 root (Some t) false = (st, RNone E) ->
+       forall v : nat, keyof h v = Some t -> ~ Reach h d accept root v.
+Proof. exact dfs_path_complete. Qed.
+Print Assumptions c07_filter_unreachable_dfs.
+
+(* every edge of a returned cycle is an accepted stored edge *)
+Theorem c07_filter_cycle_bfs_pfs :
+  forall (K V E : Type) (keqb : K -> K -> bool),
+       KeqbSpec keqb ->
+       forall (CB : Type) (cb : CB -> heap K V E -> edge E -> CB * heap K V E * bool)
+         (accept : edge E -> bool) (vleb : V -> V -> bool) (h : heap K V E),
+       Wf h ->
+       KeysInj h ->
+       PureCb h cb accept ->
+       forall (d : dir) (root : nat),
+       root < size h ->
+       forall (c0 : CB) (k : kind) (fuel : nat) (t : option K) (st : sst K V E CB) (p : list (edge E)),
+       k <> KDfs ->
+       search_path keqb cb vleb k d fuel h c0 root t true = (st, RPath p) ->
+       IsPath h d accept root p root /\ p <> [] /\ NoDup (map (edst (E:=E)) p).
+Proof. exact wlq_cycle_sound. Qed.
+Print Assumptions c07_filter_cycle_bfs_pfs.
+
+(* depth-first cycle: same *)
+Theorem c07_filter_cycle_dfs :
+  forall (K V E : Type) (keqb : K -> K -> bool),
+       KeqbSpec keqb ->
+       forall (CB : Type) (cb : CB -> heap K V E -> edge E -> CB * heap K V E * bool)
+         (accept : edge E -> bool) (vleb : V -> V -> bool) (h : heap K V E),
+       Wf h ->
+       KeysInj h ->
+       PureCb h cb accept ->
+       forall (d : dir) (root : nat),
+       root < size h ->
+       forall (c0 : CB) (fuel : nat) (t : option K) (st : sst K V E CB) (p : list (edge E)),
+       search_path keqb cb vleb KDfs d fuel h c0 root t true = (st, RPath p) ->
+       IsPath h d accept root p root /\ p <> [] /\ NoDup (map (edst (E:=E)) p).
+Proof. exact dfs_cycle_sound. Qed.
+Print Assumptions c07_filter_cycle_dfs.
+
